@@ -325,6 +325,14 @@ def write_evidence(pid, ev):
     (EVIDENCE / ("%s.json" % pid)).write_text(json.dumps(ev, indent=1, default=str))
 
 
+def safe(f):
+    """the value of f() as text, or what it raises: evidence samples must never crash a check"""
+    try:
+        return str(f())
+    except Exception as e:  # noqa: BLE001
+        return "raises %s" % type(e).__name__
+
+
 def short(obj, n=300):
     s = obj if isinstance(obj, str) else json.dumps(obj, default=str)
     return s if len(s) <= n else s[:n] + "…"
